@@ -52,6 +52,11 @@ def gen(seed, idx, tier):
         # sweep-and-prune broadphase over a dense pile: more sweep candidates than launched threads, so that one thread walks the work
         # packages of several worlds (sleeping neighbours first, then the target world)
         spec["mopt"] = dict(spec.get("mopt") or {}, broadphase=int(_rng.gen("c09sap2", seed, idx).choice([1, 2])))
+    if sleepy and _rng.gen("c09cur", seed, idx).random() < 0.4:
+      # many sweep candidates per world under the SAP broadphase (see models.Gen "curtain"): one broadphase thread then serves work
+      # packages of several worlds, the sleeping neighbours' first
+      spec, rejected = scen.pick_model(seed, idx, features={"curtain": True, "pile": False, "tiny": False, "plane": True, "free": True}, size="s", curated_p=0.0)
+      spec["mopt"] = dict(spec.get("mopt") or {}, broadphase=int(_rng.gen("c09sap3", seed, idx).choice([1, 2])))
     spec["opt"]["sleep"] = True
     spec["opt"]["sleep_tolerance"] = float(r.choice([0.05, 0.3, 1.0])) if sleepy else 0.02
   nworld = int(r.choice([2, 3, 3, 4, 5]))
